@@ -214,7 +214,9 @@ class Oracle:
             finally:
                 sys.settrace(old)
             return "ok", v, self.trace
-        except Panic:
+        except Panic as e:
+            if not self.trace or self.trace[-1][0] != "panic":
+                self.trace.append(("panic", e.signal, e.msg))
             return "panic", None, self.trace
         except ExitProgram:
             return "exit", None, self.trace
